@@ -33,6 +33,7 @@ use crate::program::Program;
 
 #[derive(Debug, Clone, Serialize, Deserialize)]
 pub struct FindingGroup {
+    pub program: Program,
     pub finding: Finding,
     pub count: u64,
     pub choices: Vec<u32>,
@@ -141,7 +142,8 @@ pub fn run_job(job: &Job) -> JobResult {
     let mut res = JobResult { job_id: job.id, ..Default::default() };
     let mut states = HashSet::new();
     if job.expand_only {
-        let ex = run_once(&job.program, &job.prefix);
+        let program = &job.programs[0];
+        let ex = run_once(program, &job.prefix);
         res.executions = 1;
         res.transitions = ex.steps.len() as u64;
         res.decisions = ex.decisions.len() as u64;
@@ -152,10 +154,10 @@ pub fn run_job(job: &Job) -> JobResult {
         if is_nontrivial(&ex) {
             res.nontrivial += 1;
         }
-        let (fs, mach) = judge_execution(&job.program, &ex, &rules);
+        let (fs, mach) = judge_execution(program, &ex, &rules);
         res.machinery.extend(mach);
         for fd in fs {
-            add_finding(&mut res, &job.program, &rules, fd, &ex);
+            add_finding(&mut res, program, &rules, fd, &ex);
         }
         match &ex.outcome {
             Outcome::Hang | Outcome::Deadlock | Outcome::Diverged(_) => {
@@ -179,64 +181,70 @@ pub fn run_job(job: &Job) -> JobResult {
                 cost += 1;
             }
         }
-        res.sample = Some(render_schedule(&job.program, &ex));
+        res.sample = Some(render_schedule(program, &ex));
         res.max_preemptions = ex.preemptions;
     } else {
-        let cfg = ExploreCfg { bound: job.bound, max_execs: job.max_execs, deadline: None };
-        let mut pending: Vec<(Finding, Execution)> = Vec::new();
-        let mut mach = Vec::new();
-        let mut outcomes: HashMap<u64, u64> = HashMap::new();
-        let mut counts: BTreeMap<Finding, u64> = BTreeMap::new();
-        let mut sample = None;
-        let mut nontrivial = 0;
-        let st = explore(&job.program, &cfg, job.prefix.clone(), &mut states, |ex| {
-            *outcomes.entry(outcome_signature(ex)).or_insert(0) += 1;
-            if is_nontrivial(ex) {
-                nontrivial += 1;
-            }
-            if sample.is_none() || (ex.preemptions > 0 && sample.as_ref().map_or(false, |(p, _)| *p == 0)) {
-                sample = Some((ex.preemptions, render_schedule(&job.program, ex)));
-            }
-            let (fs, m) = judge_execution(&job.program, ex, &rules);
-            for x in m {
-                if !mach.contains(&x) && mach.len() < 20 {
-                    mach.push(x);
+        let mut sample: Option<(u32, String)> = None;
+        for program in &job.programs {
+            let cfg = ExploreCfg { bound: job.bound, max_execs: job.max_execs, deadline: None };
+            let mut pending: Vec<(Finding, Execution)> = Vec::new();
+            let mut counts: BTreeMap<Finding, u64> = BTreeMap::new();
+            let mut mach: Vec<String> = Vec::new();
+            let mut nontrivial = 0;
+            let outcomes = &mut res.outcomes;
+            let phash = hash_of(program);
+            let st = explore(program, &cfg, job.prefix.clone(), &mut states, |ex| {
+                *outcomes.entry(outcome_signature(ex) ^ phash).or_insert(0) += 1;
+                if is_nontrivial(ex) {
+                    nontrivial += 1;
+                }
+                if sample.is_none() || (ex.preemptions > 0 && sample.as_ref().map_or(false, |(p, _)| *p == 0)) {
+                    sample = Some((ex.preemptions, format!("{} || {}", program.short(), render_schedule(program, ex))));
+                }
+                let (fs, m) = judge_execution(program, ex, &rules);
+                for x in m {
+                    if !mach.contains(&x) && mach.len() < 20 {
+                        mach.push(x);
+                    }
+                }
+                for fd in fs {
+                    let key = Finding { rule: fd.rule.clone(), what: fd.what.clone(), detail: String::new() };
+                    let c = counts.entry(key).or_insert(0);
+                    *c += 1;
+                    if *c == 1 {
+                        pending.push((fd, ex.clone()));
+                    }
+                }
+                true
+            });
+            res.executions += st.executions;
+            res.transitions += st.transitions;
+            res.decisions += st.decisions;
+            res.capped |= st.capped;
+            res.max_preemptions = res.max_preemptions.max(st.max_preemptions_seen);
+            for x in mach {
+                if !res.machinery.contains(&x) && res.machinery.len() < 20 {
+                    res.machinery.push(x);
                 }
             }
-            for fd in fs {
-                // group by (rule, what)
-                let key = Finding { rule: fd.rule.clone(), what: fd.what.clone(), detail: String::new() };
-                let c = counts.entry(key).or_insert(0);
-                *c += 1;
-                if *c == 1 {
-                    pending.push((fd, ex.clone()));
+            res.nontrivial += nontrivial;
+            if st.aborted.is_none() {
+                for (fd, ex) in pending {
+                    let n = counts.get(&Finding { rule: fd.rule.clone(), what: fd.what.clone(), detail: String::new() }).copied().unwrap_or(1);
+                    add_finding(&mut res, program, &rules, fd, &ex);
+                    if let Some(g) = res.findings.last_mut() {
+                        g.count = n;
+                    }
                 }
-            }
-            true
-        });
-        res.executions = st.executions;
-        res.transitions = st.transitions;
-        res.decisions = st.decisions;
-        res.capped = st.capped;
-        res.aborted = st.aborted;
-        res.max_preemptions = st.max_preemptions_seen;
-        res.machinery = mach;
-        res.outcomes = outcomes;
-        res.nontrivial = nontrivial;
-        res.sample = sample.map(|(_, s)| s);
-        if res.aborted.is_none() {
-            for (fd, ex) in pending {
-                let n = counts.get(&Finding { rule: fd.rule.clone(), what: fd.what.clone(), detail: String::new() }).copied().unwrap_or(1);
-                add_finding(&mut res, &job.program, &rules, fd, &ex);
-                if let Some(g) = res.findings.last_mut() {
-                    g.count = n;
+            } else {
+                for (fd, ex) in pending {
+                    res.findings.push(FindingGroup { program: program.clone(), finding: fd, count: 1, choices: ex.choices.clone(), reproduced: false });
                 }
-            }
-        } else {
-            for (fd, ex) in pending {
-                res.findings.push(FindingGroup { finding: fd, count: 1, choices: ex.choices.clone(), reproduced: false });
+                res.aborted = st.aborted;
+                break;
             }
         }
+        res.sample = sample.map(|(_, s)| s);
     }
     res.state_hashes = states.into_iter().take(200_000).collect();
     res.wall_ms = t0.elapsed().as_millis() as u64;
@@ -251,7 +259,7 @@ fn add_finding(res: &mut JobResult, program: &Program, rules: &[Rule], fd: Findi
         let (fs2, _) = judge_execution(program, &ex2, rules);
         reproduced = ex2.choices == ex.choices && fs2.iter().any(|x| x.rule == fd.rule && x.what == fd.what);
     }
-    res.findings.push(FindingGroup { finding: fd, count: 1, choices: ex.choices.clone(), reproduced });
+    res.findings.push(FindingGroup { program: program.clone(), finding: fd, count: 1, choices: ex.choices.clone(), reproduced });
 }
 
 /// Worker process main loop: one JSON job per line on stdin, one JSON result per line on stdout.
@@ -388,6 +396,18 @@ pub struct CheckSpec {
     pub wall_cap: Duration,
 }
 
+struct JobMeta {
+    cancelable: bool,
+    rules: Vec<String>,
+}
+
+fn job_name(job: &Job) -> String {
+    match job.programs.len() {
+        1 => job.programs[0].name.clone(),
+        n => format!("{}..(+{})", job.programs[0].name, n - 1),
+    }
+}
+
 #[derive(Default)]
 struct Agg {
     executions: u64,
@@ -399,7 +419,7 @@ struct Agg {
     nontrivial: u64,
     machinery: Vec<String>,
     samples: Vec<serde_json::Value>,
-    findings: Vec<(Job, FindingGroup)>,
+    findings: Vec<(JobMeta, FindingGroup)>,
     max_preemptions: u32,
     programs: HashSet<u64>,
     jobs_done: u64,
@@ -475,7 +495,7 @@ pub fn run_check(spec: CheckSpec) -> i32 {
                 let r = worker.as_mut().unwrap().run(&job);
                 match r {
                     Err(e) => {
-                        agg.lock().unwrap().machinery.push(format!("job {} ({}): {e}", job.id, job.program.name));
+                        agg.lock().unwrap().machinery.push(format!("job {} ({}): {e}", job.id, job_name(&job)));
                         if let Some(w) = worker.take() {
                             w.kill();
                         }
@@ -494,12 +514,14 @@ pub fn run_check(spec: CheckSpec) -> i32 {
                         a.nontrivial += res.nontrivial;
                         a.max_preemptions = a.max_preemptions.max(res.max_preemptions);
                         a.jobs_done += 1;
-                        a.programs.insert(hash_of(&(&job.program, job.cancelable)));
+                        for p in &job.programs {
+                            a.programs.insert(hash_of(&(p, job.cancelable)));
+                        }
                         for h in &res.state_hashes {
-                            a.states.insert(*h ^ hash_of(&(&job.program.name, job.cancelable)));
+                            a.states.insert(*h ^ (job.cancelable as u64));
                         }
                         for (k, v) in &res.outcomes {
-                            *a.outcomes.entry(*k ^ hash_of(&job.program)).or_insert(0) += v;
+                            *a.outcomes.entry(*k ^ (job.cancelable as u64)).or_insert(0) += v;
                         }
                         for m in &res.machinery {
                             if a.machinery.len() < 50 && !a.machinery.contains(m) {
@@ -511,20 +533,20 @@ pub fn run_check(spec: CheckSpec) -> i32 {
                             // else that aborts an exploration is a machinery failure
                             let judged = res.findings.iter().any(|g| g.finding.rule == "liveness");
                             if !judged {
-                                a.machinery.push(format!("job {} ({}): exploration aborted: {ab}", job.id, job.program.name));
+                                a.machinery.push(format!("job {} ({}): exploration aborted: {ab}", job.id, job_name(&job)));
                             }
                         }
                         if a.samples.len() < 6 {
                             if let Some(s) = &res.sample {
                                 a.samples.push(serde_json::json!({
-                                    "program": job.program.short(),
+                                    "program": job_name(&job),
                                     "config": if job.cancelable { "cancelable" } else { "default" },
                                     "schedule": s,
                                 }));
                             }
                         }
                         for g in res.findings {
-                            a.findings.push((job.clone(), g));
+                            a.findings.push((JobMeta { cancelable: job.cancelable, rules: job.rules.clone() }, g));
                         }
                         drop(a);
                         if job.expand_only && want_split {
@@ -565,8 +587,8 @@ fn finish_check(spec: &CheckSpec, agg: Agg, t0: Instant) -> i32 {
     let mut violation_list = Vec::new();
     for (job, g) in &agg.findings {
         let cfg = if job.cancelable { "cancelable" } else { "default" };
-        let key = format!("{}|{}|{}|{}", g.finding.rule, g.finding.what, job.program.name, cfg);
-        if let Some(k) = known.entries.iter().find(|k| known_match(k, &spec.property, &g.finding, &job.program.name, job.cancelable)) {
+        let key = format!("{}|{}|{}|{}", g.finding.rule, g.finding.what, g.program.name, cfg);
+        if let Some(k) = known.entries.iter().find(|k| known_match(k, &spec.property, &g.finding, &g.program.name, job.cancelable)) {
             *known_hits
                 .entry(format!(
                     "KNOWN-FINDING: property={} {} [rule {}, program {}, {} configuration] ({})",
@@ -589,7 +611,7 @@ fn finish_check(spec: &CheckSpec, agg: Agg, t0: Instant) -> i32 {
         violations += 1;
         let rp = Replay {
             property: spec.property.clone(),
-            program: job.program.clone(),
+            program: g.program.clone(),
             cancelable: job.cancelable,
             choices: g.choices.clone(),
             rules: job.rules.clone(),
@@ -600,8 +622,8 @@ fn finish_check(spec: &CheckSpec, agg: Agg, t0: Instant) -> i32 {
         let path = format!("{dir}/{}-{:016x}.json", spec.property, hash_of(&key));
         std::fs::write(&path, serde_json::to_string_pretty(&rp).unwrap()).unwrap();
         println!("VIOLATION property={} replay={}", spec.property, path);
-        println!("  {} / {} [{} , {}]: {}", g.finding.rule, g.finding.what, job.program.name, cfg, g.finding.detail);
-        violation_list.push(serde_json::json!({"rule": g.finding.rule, "what": g.finding.what, "program": job.program.name, "config": cfg, "executions": g.count, "replay": path}));
+        println!("  {} / {} [{} , {}]: {}", g.finding.rule, g.finding.what, g.program.name, cfg, g.finding.detail);
+        violation_list.push(serde_json::json!({"rule": g.finding.rule, "what": g.finding.what, "program": g.program.name, "config": cfg, "executions": g.count, "replay": path}));
     }
     for (k, n) in &known_hits {
         println!("{k} [{n} executions]");
